@@ -4,7 +4,7 @@
     rounding: the integer accumulators never leave int64 for in-domain sizes, so the compiled
     fixed-width integers and the interpreter's unbounded integers agree. *)
 From Coq Require Import ZArith List.
-From HDC Require Import Base.Prelude Model.MK Proofs.C13Proofs.
+From HDC Require Import Base.Prelude Model.Calib Model.MK Proofs.C13Proofs.
 Open Scope Z_scope.
 
 Theorem C13_mk_counters_fit_int64 x :
@@ -26,3 +26,11 @@ Theorem C13_autocorr_int_sums_fit_int64 (l : list (Z * Z)) :
   Z.abs (iSx s) < 2 ^ 63 /\ Z.abs (iSxx s) < 2 ^ 63 /\ Z.abs (iSxy s) < 2 ^ 63.
 Proof. exact (autocorr_int_sums_fit_int64 l). Qed.
 Print Assumptions C13_autocorr_int_sums_fit_int64.
+
+Theorem C13_mk_tie_correction_fits_int64 x :
+  Z.of_nat (length x) <= 1600000 ->
+  let n := Z.of_nat (length x) in
+  let tp := zsum (map (fun u => tie_term (zcount u x)) (Calib.sort_uniq x)) in
+  0 <= tp <= n * (n - 1) * (2 * n + 5) /\ n * (n - 1) * (2 * n + 5) < 2 ^ 63 /\ 0 <= var_num x <= n * (n - 1) * (2 * n + 5).
+Proof. exact (mk_tie_correction_fits_int64 x). Qed.
+Print Assumptions C13_mk_tie_correction_fits_int64.
